@@ -122,8 +122,8 @@ def worker(args):
                 out.append(dict(ob='single-worker', status=str(c), solver_s=round(dt, 2), lo=1, hi=1))
         out.append(dict(ob='_stats', lo=lo, hi=hi, paths=len(paths), wall=round(time.time() - t0, 1), **stats))
         log(f'chunk {profile} {lo}..{hi}: {len(paths)} paths, {time.time()-t0:.0f}s')
-    except mirx.Unsupported as e:
-        out.append(dict(ob='_error', msg='unsupported: ' + str(e), lo=lo, hi=hi))
+    except Exception as e:
+        out.append(dict(ob='_error', msg=('unsupported: ' if isinstance(e, mirx.Unsupported) else 'internal: ' + type(e).__name__ + ' ') + str(e), lo=lo, hi=hi))
     return out
 
 
